@@ -108,7 +108,7 @@ fn huge_fail(what: &str, f: Fail) -> Violation {
 /// A version-3 file written by the library and grown in steps past the 110th and the 237th
 /// FAT sector; after each step: model comparison, checker, reopen in both modes (raw bytes).
 pub fn huge_library_file() -> Result<u64, Violation> {
-    let what = "library-written V3 file grown to 16.6 MB (110th and 237th FAT sector)";
+    let what = "library-written V3 file grown to 32.4 MB (110th, 237th, 364th and 491st FAT sector: four DIFAT sectors)";
     let o = Oracles { dump_every: 0, final_reopen: false, ..Oracles::default() };
     let mut eng = Engine::new(3, None, vec![], o).map_err(|f| huge_fail(what, f))?;
     // (only the engine's 'skip very large writes' rule looks at this copy of the cap)
@@ -131,9 +131,21 @@ pub fn huge_library_file() -> Result<u64, Violation> {
         steps += 1;
     }
     run(&mut eng, Op::CreateStream { p: raw("/after".into()), data: DataSpec { len: 70_000, seed: 3 } })?;
+    // a third and a fourth DIFAT sector (364th and 491st FAT sector: 23.8 MB and 32.1 MB): the DIFAT
+    // chain gets a sector appended behind one that was itself appended
+    for len in [23_300_000u32, 23_600_000, 23_800_000, 24_000_000, 31_900_000, 32_200_000, 32_400_000] {
+        run(&mut eng, Op::SetLen { p: raw("/huge".into()), len: LenSpec::Abs(len) })?;
+        steps += 1;
+    }
+    let nd = refparse::parse(&eng.snapshot()).map(|p| p.difat_sectors.len()).unwrap_or(0);
+    if nd < 4 {
+        return Err(huge_fail(what, Fail::new("harness|scenario", format!("expected >= 4 DIFAT sectors at 32.4 MB, the independent parser sees {}", nd))));
+    }
     run(&mut eng, Op::SetLen { p: raw("/huge".into()), len: LenSpec::Abs(100) })?;
     run(&mut eng, Op::CreateStream { p: raw("/again".into()), data: DataSpec { len: 9_000_000, seed: 4 } })?;
-    Ok(steps + 5)
+    // the released space is taken again up to the fourth DIFAT sector
+    run(&mut eng, Op::SetLen { p: raw("/again".into()), len: LenSpec::Abs(32_300_000) })?;
+    Ok(steps + 6)
 }
 
 /// A foreign version-3 file of 15.6 MB with two DIFAT sectors (permuted placement, so the
